@@ -12,7 +12,7 @@
    Link-time wraps (besides those of sess.h):
      transcript hashes    psSha256Init/Update psSha384Init/Update psMd5Sha1Init/Update   (by context address)
      <= TLS 1.2 PRF       prf prf2                                                        (secret, seed, output, destination)
-     TLS 1.3 schedule     psHkdfExtract psHkdfExpandLabel                                 (inputs, output, destination)
+     TLS 1.3 schedule     psHkdfExtract psHkdfExpandLabel                 (inputs, label bytes as passed, output, destination, source)
      signatures           psSign psVerify psVerifySig                                     (signed / verified content)
      API entry points     matrixSslNew{Client,Server}Session ReceivedData ProcessedData EncodeToOutdata GetOutdata
                           (which peer is running; session options for groups / signature algorithms)
@@ -22,7 +22,7 @@
 
 /* ------------------------------------------------------------------ event log */
 enum { EV_HINIT = 1, EV_HUPD, EV_PRF, EV_PRF2, EV_EXTRACT, EV_EXPLABEL, EV_SIGN, EV_VERIFY, EV_VERIFYSIG };
-typedef struct { int kind, side, a, b; const void *p; unsigned char *d[4]; size_t l[4]; } ev_t;
+typedef struct { int kind, side, a, b; const void *p, *p2; unsigned char *d[4]; size_t l[4]; } ev_t;
 #define MAXEV 200000
 static ev_t *g_ev; static int g_nev; static int g_cur = -1; static int g_logging = 1;
 static unsigned char *dupb(const void *p, size_t l) { unsigned char *r = malloc(l + 1); if (l && p) memcpy(r, p, l); return r; }
@@ -72,7 +72,7 @@ int32_t __real_psHkdfExpandLabel(psPool_t *pool, psCipherType_e alg, const unsig
 int32_t __wrap_psHkdfExpandLabel(psPool_t *pool, psCipherType_e alg, const unsigned char *secret, psSize_t secretLen, const char *label, psSize_t labelLen,
                                  const unsigned char *context, psSize_t contextLen, psSize_t length, unsigned char *out)
 {
-    ev_t *e = ev_new(EV_EXPLABEL, out); ev_set(e, 0, secret, secretLen); ev_set(e, 1, label, labelLen); ev_set(e, 3, context, contextLen);
+    ev_t *e = ev_new(EV_EXPLABEL, out); if (e) e->p2 = secret; ev_set(e, 0, secret, secretLen); ev_set(e, 1, label, labelLen); ev_set(e, 3, context, contextLen);
     int32_t rc = __real_psHkdfExpandLabel(pool, alg, secret, secretLen, label, labelLen, context, contextLen, length, out);
     if (e) { e->a = rc; e->b = (alg == HMAC_SHA384) ? 384 : 256; ev_set(e, 2, out, rc < 0 ? 0 : length); }
     return rc;
@@ -276,7 +276,8 @@ static void do_dump(void)
             puthex(e->d[0], e->l[0]); printf(":"); puthex(e->d[1], e->l[1]); printf(":"); puthex(e->d[2], e->l[2]); break;
         case EV_EXPLABEL:
             printf(" ev=L:%d:%d:%s:", e->side, e->b, role_of(e->side, e->p));
-            puthex(e->d[0], e->l[0]); printf(":"); puthex(e->d[1], e->l[1]); printf(":"); puthex(e->d[3], e->l[3]); printf(":"); puthex(e->d[2], e->l[2]); break;
+            puthex(e->d[0], e->l[0]); printf(":"); puthex(e->d[1], e->l[1]); printf(":"); puthex(e->d[3], e->l[3]); printf(":"); puthex(e->d[2], e->l[2]);
+            printf(":%s", role_of(e->side, e->p2)); break;       /* where the input secret lives: the derivation site of unnamed outputs */
         case EV_SIGN: case EV_VERIFY: case EV_VERIFYSIG:
             printf(" ev=%s:%d:%d:%d:", e->kind == EV_SIGN ? "S" : e->kind == EV_VERIFY ? "V" : "W", e->side, e->b, e->a); puthex(e->d[0], e->l[0]); break;
         }
